@@ -81,6 +81,8 @@ def parse_model(reply):
 
 RE_NOTALLOWED = re.compile(r"^app (?:(?:\S+:)?(\S+)): (?:parent \S+ of )?builder (\S+) blocklisted$")
 RE_NOTANC = re.compile(r"^app (\S+): builder (\S+) is not an ancestor of")
+RE_CONFIGURING = re.compile(r"^configuring (\S+) for (\S+)$")
+RE_SHADOWED = re.compile(r"^app (\S+): shadowed for builder (\S+) by the definition in context")
 RE_UNRES = re.compile(r'^laze: not building binary "([^"]*)" for builder "([^"]*)"')
 RE_CYCLE = re.compile(r"^error: (\S+) for (\S+): build dependency cycle detected")
 
@@ -89,11 +91,16 @@ def parse_impl(r):
     out = dict(rc=r["rc"], crashed=False, nobuilds=[], builds=[], err=None)
     if r["rc"] == "timeout" or (isinstance(r["rc"], int) and (r["rc"] < 0 or r["rc"] in (101, 134, 139))):
         out["crashed"] = True
+    out["configuring"] = []
     for ln in r["stdout"].splitlines():
+        m = RE_CONFIGURING.match(ln)
+        if m: out["configuring"].append((m.group(2), m.group(1))); continue
         m = RE_NOTALLOWED.match(ln)
         if m: out["nobuilds"].append((m.group(2), m.group(1), "notallowed")); continue
         m = RE_NOTANC.match(ln)
         if m: out["nobuilds"].append((m.group(2), m.group(1), "notancestor")); continue
+        m = RE_SHADOWED.match(ln)
+        if m: out["nobuilds"].append((m.group(2), m.group(1), "shadowed")); continue
         m = RE_UNRES.match(ln)
         if m: out["nobuilds"].append((m.group(2), m.group(1), "unresolved")); continue
         m = RE_CYCLE.match(ln)
